@@ -6,9 +6,9 @@ VARIABLE l
 Trace == ndJsonDeserialize(IOEnv.TRACE)
 ev == Trace[l]
 AsSet(s) == {s[i] : i \in DOMAIN s}
-Proj(o) == [status |-> o.status, labels |-> AsSet(o.labels), title |-> o.title, text |-> o.text, nops |-> o.nops]
+Proj(o) == [status |-> o.status, labels |-> AsSet(o.labels), title |-> o.title, was |-> o.was, text |-> o.text, nops |-> o.nops]
 TraceInit == Init /\ l = 1
-Reset == l <= Len(Trace) /\ ev.ev = "Reset" /\ l' = l + 1 /\ b' = [status |-> "OPEN", labels |-> {}, title |-> 0, text |-> <<0>>, nops |-> 1]
+Reset == l <= Len(Trace) /\ ev.ev = "Reset" /\ l' = l + 1 /\ b' = [status |-> "OPEN", labels |-> {}, title |-> 0, was |-> -1, text |-> <<0>>, nops |-> 1]
          /\ k' = 0 /\ res' = [refused |-> FALSE, newops |-> 0]
 Req == /\ l <= Len(Trace) /\ ev.ev = "Request" /\ l' = l + 1
        /\ Request(ev.name, ev.auth, ev.i, AsSet(ev.add), AsSet(ev.rem))
